@@ -182,7 +182,7 @@ def build_stats_tests(verdicts_per_task, naming='distinct'):
     return test, test.evaluate()
 
 
-def build_stats_labels(results, by_labels=('day',)):
+def build_stats_labels(results, by_labels=('day',), naming='distinct'):
     """results: tuple of (verdict, day label or None[, meal label])."""
     from valjean.gavroche.diagnostics.stats import TestStatsTestsByLabels
     from valjean.cosette.task import TaskStatus
@@ -196,6 +196,7 @@ def build_stats_labels(results, by_labels=('day',)):
             labels['meal'] = item[2]
         if len(item) > 3 and item[3] is not None:
             labels['index'] = item[3]
-        trs.append((f'task{k}', {'status': TaskStatus.DONE, 'result': [simple_result(verdict, f'test{k}', labels=labels)]}))
+        trs.append((f'task{k}', {'status': TaskStatus.DONE,
+                                 'result': [simple_result(verdict, f'test{k}' if naming == 'distinct' else 'test', labels=labels)]}))
     test = TestStatsTestsByLabels(name='t_stats_labels', description='by labels', task_results=trs, by_labels=tuple(by_labels))
     return test, test.evaluate()
